@@ -276,4 +276,18 @@ func (*parser).Parse$1
   loop 3 inv forall t int {ptPrio(t)} :: (0 <= t && t < ptN()) ==> ptPrio(t) == (*p).config.ParagraphTransformers[t].Priority
   loop 4 inv *p != nil && (*p).config != nil && (*p).config == old((*p).config) && sortedPS((*p).config.ASTTransformers) && atN() == rangeindex + 1 && rangeindex < len((*p).config.ASTTransformers)
   loop 4 inv forall t int {atPrio(t)} :: (0 <= t && t < atN()) ==> atPrio(t) == (*p).config.ASTTransformers[t].Priority
+
+// the parser configuration owns its component lists (they are sorted in place by Parse's Once closure)
+func (*withBlockParsers).SetParserOption
+  ensures [owned] fresh(c.BlockParsers) || arrof(c.BlockParsers) == old(arrof(c.BlockParsers))
+  modifies c.BlockParsers, contents(c.BlockParsers)
+func (*withInlineParsers).SetParserOption
+  ensures [owned] fresh(c.InlineParsers) || arrof(c.InlineParsers) == old(arrof(c.InlineParsers))
+  modifies c.InlineParsers, contents(c.InlineParsers)
+func (*withParagraphTransformers).SetParserOption
+  ensures [owned] fresh(c.ParagraphTransformers) || arrof(c.ParagraphTransformers) == old(arrof(c.ParagraphTransformers))
+  modifies c.ParagraphTransformers, contents(c.ParagraphTransformers)
+func (*withASTTransformers).SetParserOption
+  ensures [owned] fresh(c.ASTTransformers) || arrof(c.ASTTransformers) == old(arrof(c.ASTTransformers))
+  modifies c.ASTTransformers, contents(c.ASTTransformers)
 @*/
